@@ -161,6 +161,290 @@ def with_group_texts(rng, case):
     return case
 
 
+# ---- texts near the request grammar
+# A text that leaves the documented grammar is either rejected (parse raises) or it means what is written: G is giga also
+# when written g, && is &, `2 * cuda(..)` is `cuda(..) * 2`.  `reading` is that meaning as the list of requirements
+# (gpus, mem, cores, dur) or None: no reading, the text must be rejected.
+UNITS_X = {"": 1, "K": 10 ** 3, "M": M, "G": G, "T": 10 ** 12}
+DUR_X = {"s": 1, "m": 60, "h": 3600, "d": 86400, "w": 7 * 86400}
+
+
+def sem_alt(ts):
+    """documented meaning of one alternative (items may carry an explicit byte count `b`, durations explicit seconds `sec`,
+    cuda terms an explicit number of copies `copies`)"""
+    gpus, mem, cores, dur = [], 0, 0, 0
+    for t in ts:
+        if t["k"] == "duration":
+            dur = max(dur, t["sec"] if "sec" in t else t["n"] * DUNITS[t["u"]])
+        elif t["k"] == "cuda":
+            m = 0
+            for it in t["items"]:
+                m = it["b"] if "b" in it else bytes_of(it["n"], it["u"])
+            k = t["copies"] if "copies" in t else (1 if t["mult"] is None else max(1, t["mult"]))
+            gpus += [m] * k
+        else:
+            m, c = 0, 1
+            for it in t["items"]:
+                if it["k"] == "mem":
+                    m = it["b"] if "b" in it else bytes_of(it["n"], it["u"])
+                else:
+                    c = it["n"]
+            mem, cores = max(mem, m), max(cores, c)
+    return dict(gpus=sorted(gpus), mem=mem, cores=cores, dur=dur)
+
+
+NEAR_REQ = ["unit-case", "unit-case", "unit-other", "unit-space", "dur-unit", "dur-unit", "dur-none", "kw-case", "kw-case",
+            "kw-space", "no-parens", "unbalanced", "mult-zero", "mult-signed", "mult-real", "mult-left", "mult-twice",
+            "mult-on-cpu", "unknown-key", "unknown-key", "key-alias", "empty-brackets", "empty-then-term", "op-symbol",
+            "op-word", "op-missing", "op-dangling", "op-double", "sep-missing", "sep-other", "sep-trailing", "eq-other",
+            "number-real", "number-signed", "number-zeros", "odd-whitespace", "junk-suffix", "dup-keys"]
+
+
+def gen_near_req(rng, e0):
+    """(text near the grammar, label, reading) derived from the expression e0"""
+    import copy
+    label = rng.choice(NEAR_REQ)
+    e = copy.deepcopy(e0)
+
+    def pick(kind):
+        """a term of the kind (created when there is none); returns (alternative, index)"""
+        where = [(ts, i) for ts in e for i, t in enumerate(ts) if t["k"] == kind]
+        if where:
+            return rng.choice(where)
+        ts = rng.choice(e)
+        while True:
+            t = gen_term(rng)
+            if t["k"] == kind:
+                break
+        ts.append(t)
+        return ts, len(ts) - 1
+
+    def texts():
+        return [[print_term(rng, t) for t in ts] for ts in e]
+
+    def join(tx, amp=" & ", bar=" | "):
+        return bar.join(amp.join(a) for a in tx)
+
+    reading = "same"
+    if label in ("unit-case", "unit-other", "unit-space", "number-real", "number-signed", "number-zeros"):
+        ts, i = pick(rng.choice(["cuda", "cpu"]))
+        t = ts[i]
+        mems = [it for it in t["items"] if it["k"] == "mem"]
+        if not mems:
+            t["items"].append(gen_item_mem(rng))
+            mems = [t["items"][-1]]
+        it = mems[-1]
+        if not it["u"] and label in ("unit-case", "unit-space"):
+            it["u"] = rng.choice("GM")
+        tx = texts()
+        a = e.index(ts)
+        old = f"{it['n']}{it['u']}"
+        if label == "unit-case":
+            new = f"{it['n']}{rng.choice([it['u'].lower(), it['u'] + 'B', it['u'] + 'b', it['u'].lower() + 'b'])}"
+        elif label == "unit-other":
+            u = rng.choice(["K", "T", "k", "KB", "TB"])
+            new = f"{it['n']}{u}"
+            it["b"] = it["n"] * UNITS_X[u[0].upper()]
+        elif label == "unit-space":
+            new = f"{it['n']}{rng.choice([' ', '  ', chr(9)])}{it['u']}"
+        elif label == "number-real":
+            new = f"{it['n']}.5{it['u']}"
+            it["b"] = int((it["n"] + 0.5) * UNITS_X[it["u"]])
+        elif label == "number-signed":
+            new = rng.choice(["-", "+"]) + old
+            reading = None if new[0] == "-" else "same"
+        else:
+            new = rng.choice(["0", "00"]) + old
+        # the last mem item is the one printed last among the mem items: rewrite its value
+        k = tx[a][i].rfind("mem")
+        j = tx[a][i].find(old, k)
+        if k < 0 or j < 0:
+            return gen_near_req(rng, e0)
+        tx[a][i] = tx[a][i][:j] + new + tx[a][i][j + len(old):]
+        text = join(tx)
+    elif label in ("dur-unit", "dur-none"):
+        ts, i = pick("duration")
+        t = ts[i]
+        tx = texts()
+        a = e.index(ts)
+        if label == "dur-none":
+            tx[a][i] = f"duration={t['n']}"
+            t["sec"] = t["n"]
+        else:
+            u = rng.choice(["H", "D", "Hours", "DAYS", "hour", "day", "hrs", "m", "min", "minutes", "s", "w", "weeks"])
+            tx[a][i] = f"duration={t['n']}{rng.choice(['', ' '])}{u}"
+            t["sec"] = t["n"] * DUR_X[u[0].lower()]
+        text = join(tx)
+    elif label in ("kw-case", "kw-space"):
+        tx = texts()
+        a = rng.randrange(len(tx))
+        i = rng.randrange(len(tx[a]))
+        words = [w for w in ("cuda", "cpu", "duration", "mem", "cores") if w in tx[a][i]]
+        w = rng.choice(words)
+        if label == "kw-case":
+            new = rng.choice([w.upper(), w.capitalize(), w[:-1] + w[-1].upper()])
+        else:
+            k = rng.randrange(1, len(w))
+            new = w[:k] + " " + w[k:]
+            reading = None
+        tx[a][i] = tx[a][i].replace(w, new, 1)
+        text = join(tx)
+    elif label in ("no-parens", "unbalanced"):
+        ts, i = pick(rng.choice(["cuda", "cpu"]))
+        tx = texts()
+        a = e.index(ts)
+        s = tx[a][i]
+        if label == "no-parens":
+            s = s.replace("(", " ", 1).replace(")", " ", 1)
+        else:
+            s = rng.choice([s.replace("(", "", 1), s.replace(")", "", 1), s.replace(")", "))", 1), s.replace("(", "((", 1),
+                            s.replace("(", "[", 1).replace(")", "]", 1), s.replace("(", "{", 1).replace(")", "}", 1)])
+            reading = "same" if s[s.find("c"):].count("[") or s.count("{") else None
+        tx[a][i] = s
+        text = join(tx)
+    elif label.startswith("mult-"):
+        kind = "cpu" if label == "mult-on-cpu" else "cuda"
+        ts, i = pick(kind)
+        t = ts[i]
+        a = e.index(ts)
+        if kind == "cuda":
+            t["mult"] = None
+        tx = texts()
+        base = tx[a][i]
+        if label == "mult-zero":
+            t["mult"] = 0
+            tx[a][i] = base + rng.choice(["*0", " * 0", " * 00"])
+        elif label == "mult-signed":
+            sgn = rng.choice(["-", "+"])
+            n = rng.choice([0, 1, 2])
+            tx[a][i] = base + f" * {sgn}{n}"
+            t["mult"] = n
+            reading = "same" if sgn == "+" else None
+        elif label == "mult-real":
+            tx[a][i] = base + rng.choice([" * 2.5", " * 2.0", " * 1e1", " * two", " * "])
+            reading = None
+        elif label == "mult-left":
+            n = rng.choice([1, 2, 3])
+            tx[a][i] = f"{n} * " + base
+            t["mult"] = n
+        elif label == "mult-twice":
+            n, m_ = rng.choice([2, 3]), rng.choice([2, 3])
+            tx[a][i] = base + f" * {n} * {m_}"
+            t["copies"] = n * m_          # (g * n) * m: every copy is copied again
+        else:
+            tx[a][i] = base + rng.choice([" * 2", "*3"])          # cpu(..) * n is cpu(..): only GPUs are multiplied
+        text = join(tx)
+    elif label in ("unknown-key", "key-alias", "dup-keys", "sep-missing", "sep-other", "sep-trailing", "eq-other"):
+        ts, i = pick(rng.choice(["cuda", "cpu"]))
+        t = ts[i]
+        a = e.index(ts)
+        if label == "unknown-key":
+            tx = texts()
+            extra = rng.choice(["gpus=2", "model=a100", "threads=4", "memory_per_cpu=2G", "x=1"] +
+                               (["cores=2"] if t["k"] == "cuda" else []))
+            tx[a][i] = (tx[a][i].replace("(", "(" + extra + ", ", 1) if rng.random() < 0.5
+                        else tx[a][i][:tx[a][i].rfind(")")] + ", " + extra + ")" + tx[a][i][tx[a][i].rfind(")") + 1:])
+            reading = None
+        elif label == "key-alias":
+            tx = texts()
+            if "mem" not in tx[a][i]:
+                return gen_near_req(rng, e0)
+            tx[a][i] = tx[a][i].replace("mem", rng.choice(["memory", "ram", "m"]), 1)
+        elif label == "dup-keys":
+            t["items"] = t["items"] + [gen_item_mem(rng)] + ([dict(k="cores", n=rng.choice([1, 3, 8]))] if t["k"] == "cpu" else [])
+            tx = texts()          # in the grammar: the last one wins
+        else:
+            if len(t["items"]) < 2:
+                t["items"].append(gen_item_mem(rng))
+            tx = texts()
+            s = tx[a][i]
+            if label == "sep-missing":
+                s = s.replace(",", " ", 1)
+            elif label == "sep-other":
+                s = s.replace(",", rng.choice([";", "&", ",,", "|", ":"]), 1)
+            elif label == "sep-trailing":
+                k = s.rfind(")")
+                s = rng.choice([s[:k] + ",)" + s[k + 1:], s.replace("(", "(,", 1)])
+            else:
+                s = s.replace("=", rng.choice([":", "==", " ", "=>", "= ="]), 1)
+            tx[a][i] = s
+            reading = None
+        text = join(tx)
+    elif label in ("empty-brackets", "empty-then-term"):
+        kind = rng.choice(["cuda", "cpu"])
+        if label == "empty-brackets":
+            ts = rng.choice(e)
+            w = rng.choice(["", " "])
+            extra = dict(k="cuda", items=[dict(k="mem", n=0, u="")], mult=None) if kind == "cuda" else dict(k="cpu", items=[])
+            txt = f"{kind}({w})"
+            if kind == "cuda" and rng.random() < 0.4:
+                extra["mult"] = 2
+                txt += " * 2"
+            pos = rng.randrange(len(ts) + 1)
+            tx = texts()
+            a = e.index(ts)
+            ts.insert(pos, extra)
+            tx[a].insert(pos, txt)
+            text = join(tx)              # cuda() = cuda_gpu(): one GPU of any size; cpu() = cpu(): one core
+        else:
+            tx = texts()
+            a = rng.randrange(len(tx))
+            i = rng.randrange(len(tx[a]))
+            tx[a][i] = f"{kind}() " + tx[a][i]          # an operator is missing
+            text = join(tx)
+            reading = None
+    elif label in ("op-symbol", "op-word", "op-missing", "op-dangling", "op-double"):
+        if all(len(ts) == 1 for ts in e) and len(e) == 1:
+            e[0].append(gen_term(rng))
+        tx = texts()
+        has_amp, has_bar = any(len(x) > 1 for x in tx), len(tx) > 1
+        on_amp = has_amp and (not has_bar or rng.random() < 0.5)
+        if label == "op-symbol":
+            text = join(tx, amp=rng.choice([" && ", " + ", "&&"])) if on_amp else join(tx, bar=rng.choice([" || ", "||", " / "]))
+        elif label == "op-word":
+            text = join(tx, amp=rng.choice([" and ", " AND "])) if on_amp else join(tx, bar=rng.choice([" or ", " OR "]))
+        elif label == "op-missing":
+            text = join(tx, amp=" ") if on_amp else join(tx, bar=" ")
+            reading = None
+        elif label == "op-dangling":
+            op = rng.choice(["&", "|"])
+            text = rng.choice([join(tx) + " " + op, op + " " + join(tx), join(tx) + op + " "])
+            reading = None
+        else:
+            text = join(tx, amp=" & & ") if on_amp else join(tx, bar=" | | ")
+            reading = None
+    elif label == "odd-whitespace":
+        tx = texts()
+        sep = rng.choice(["\x0b", "\x0c", "\xa0", "\u2003", "\u3000"])
+        text = join(tx, amp=sep + "&" + sep, bar=sep + "|" + sep)
+        text = text if ("&" in text or "|" in text) else sep + text + sep
+    else:   # junk-suffix
+        text = join(texts()) + rng.choice([" x", ")", ";", " 2", " cuda", "&&", ",", " #"])
+        reading = None
+    rd = None if reading is None else [sem_alt(ts) for ts in e]
+    return dict(text=text, label=label, reading=rd)
+
+
+def oracle_near(c, case):
+    nr, a = case.get("near"), case["ans"]
+    if nr is None:
+        return
+    got = a["near_parsed"]
+    c.count(f"near-grammar:{nr['label']}:{'rejected' if got is None else 'accepted'}")
+    if got is None:
+        return
+    data = dict(text=nr["text"], label=nr["label"], reading=nr["reading"], parsed=got, derived_from=case["expr"])
+    if nr["reading"] is None:
+        import re
+        # empty brackets make a term vanish (arpeggio goes on from after an empty result): name that cause
+        cause = "empty-brackets-dropped" if re.search(r"(cuda|cpu)\s*\(\s*\)", nr["text"]) else nr["label"]
+        c.violation(f"C18:parse-accepts-malformed:{cause}",
+                    "parse() accepts a text that has no reading in the request language", data)
+    elif [strip(r) for r in got] != nr["reading"]:
+        c.violation(f"C18:parse-near-grammar-wrong:{nr['label']}",
+                    "parse() accepts the text but the request does not mean what is written", data)
+
+
 # ---- Gallina rendering
 def g_item(i):
     if i["k"] == "mem":
@@ -200,10 +484,16 @@ def g_case(c):
         reg = "(Some None)"
     else:
         reg = f"(Some (Some ({gnat(rg['host'])}, {g_req(rg['req'])})))"
+    def g_text(t, r):
+        rr = "None" if r is None else f"(Some {glist(g_req(x) for x in r)})"
+        return f"(({glist(str(ord(ch)) for ch in t)})%N, {rr})"
+    texts = [g_text(c["text"], a["parsed"])]
+    if c.get("near") is not None:
+        texts.append(g_text(c["near"]["text"], a["near_parsed"]))
     ans = (f"{{| a_parsed := {parsed}; a_prog := {glist(g_req(r) for r in a['prog'])}; "
            f"a_pure := {glist(gbool(b) for b in a['pure'])}; "
            f"a_single := {glist(gopt(s, gz) for s in a['single'])}; a_union := {union}; "
-           f"a_orunion := {orunion}; a_reg := {reg} |}}")
+           f"a_orunion := {orunion}; a_texts := {glist(texts)}; a_reg := {reg} |}}")
     groups = glist(f"({gbool(g['kind'] == 'union')}, {gnat(g['n'])})" for g in c["groups"])
     return f"({e}, {g_host(c['host'])}, {glist(g_host(h) for h in c['hosts'])}, {groups}, {ans})"
 
@@ -260,6 +550,8 @@ def oracle(c, case):
                     dict(expr=case["expr"], pure=a["pure"], pure_after=a["pure_after"]))
     # (5) the registry: alternatives are tried in the order given, over all the hosts of launchers.py
     oracle_registry(c, case)
+    # (6) a text near the grammar is rejected or means what is written
+    oracle_near(c, case)
     # (4) text means the same as the programmatic construction
     if a["parsed"] is None or [dict(r, gpu_extra=None) for r in a["parsed"]] != [dict(r, gpu_extra=None) for r in a["prog"]]:
         c.violation("C18:parse-differs", "parse(text) differs from the equivalent programmatic request",
@@ -334,7 +626,9 @@ def run(c: Check):
     c.rule = ("random request ASTs (1-3 alternatives x 1-4 terms) printed with random whitespace and built "
               "programmatically, against random hosts near the request, and handed to the real LauncherRegistry.find "
               "(alternatives as one string, several strings, simple objects, objects built with |, or a mix) over a "
-              "launchers.py with 1-4 hosts aimed at the alternatives; non-trivial = the request has >=2 terms or a "
+              "launchers.py with 1-4 hosts aimed at the alternatives; for 45% of the cases also a text near the grammar "
+              "(38 kinds: units, keywords, brackets, multipliers, keys, operators, separators, numbers) with its reading or "
+              "none; non-trivial = the request has >=2 terms or a "
               "multiplier, distinct by (expression, host, hosts, groups)")
     c.build()
     c.props()
@@ -346,6 +640,11 @@ def run(c: Check):
             cases.append(dict(expr=rp["expr"], host=rp["host"], text=rp.get("text") or print_expr(c.rng, rp["expr"]),
                               hosts=rp.get("hosts") or [rp["host"]],
                               groups=rp.get("groups") or [dict(kind="str", n=len(rp["expr"]))]))
+        elif "derived_from" in rp:          # a text near the grammar
+            e = rp["derived_from"]
+            cases.append(dict(expr=e, host=gen_host(c.rng, e), text=print_expr(c.rng, e), hosts=[gen_host(c.rng, e)],
+                              groups=[dict(kind="str", n=len(e))],
+                              near=dict(text=rp["text"], label=rp["label"], reading=rp["reading"])))
         n = 0
     # golden corpus first (minimised earlier failures)
     gold = json.load(open(c_root() / "golden" / "c18.json"))
@@ -353,12 +652,16 @@ def run(c: Check):
         cases.append(dict(expr=g["expr"], host=g["host"], text=print_expr(c.rng, g["expr"]),
                           hosts=g.get("hosts") or [g["host"]],
                           groups=g.get("groups") or [dict(kind="str", n=len(g["expr"]))]))
+        if g.get("near"):
+            cases[-1]["near"] = g["near"]
     for _ in range(n):
         e = gen_expr(c.rng)
         cases.append(dict(expr=e, host=gen_host(c.rng, e), text=print_expr(c.rng, e), hosts=gen_hosts(c.rng, e),
                           groups=gen_groups(c.rng, len(e))))
     for case in cases:
         with_group_texts(c.rng, case)
+        if "near" not in case and not c.replay and c.rng.random() < 0.45:
+            case["near"] = gen_near_req(c.rng, case["expr"])
     ans = run_impl("drive_c18.py", dict(cases=cases), timeout=1200)
     for case, a in zip(cases, ans):
         case["ans"] = a
@@ -384,13 +687,14 @@ def run(c: Check):
         oracle(c, case)
     c.samples = [dict(text=x["text"], host=x["host"], hosts=x["hosts"], groups=x["groups"], answer=x["ans"])
                  for x in cases[:3]]
-    header = ("From Coq Require Import ZArith List Bool.\nFrom XV Require Import model.Launcher corr.LauncherCorr.\n"
+    header = ("From Coq Require Import ZArith NArith List Bool.\nFrom XV Require Import model.Launcher model.LauncherParse "
+              "corr.LauncherCorr.\n"
               "Import ListNotations.\nOpen Scope Z_scope.\n")
     bad = c.corr_shards("corr", header, cases, g_case, "check_case")
     c.extra["disagreeing_cases"] = [dict(text=cases[i]["text"], host=cases[i]["host"], answer=cases[i]["ans"]) for i in bad[:5]]
     c.level_assumptions = ["humanfriendly.parse_size / parse_timespan and arpeggio are trusted to behave as probed "
-                           "(decimal units; d/h); the model covers match/union/&/*, the meaning of the request grammar and the search of "
-                           "LauncherRegistry.find",
+                           "(decimal units G/M; d/h); the model covers match/union/&/*, the request grammar at character level "
+                           "(ASCII digits) with its meaning, and the search of LauncherRegistry.find",
                            "the find_launcher function of launchers.py is the harness's: it goes through its hosts in "
                            "order and answers with the first host the requirement matches, as the documented ones do"]
 
